@@ -1,7 +1,8 @@
 """
 C41 — the web API never exceeds the authority of the capability used.
 
-Real code executed (nothing of the web layer is stubbed or stripped): web.root.URIHandler.getChild, web.directory.make_handler_for /
+Real code executed (nothing of the web layer is stubbed or stripped): web.root.Root (static children /uri, /cap, /file, /named, /private), URIHandler.getChild,
+FileHandler.getChild, web.private (TokenChecker behind twisted's HTTPAuthSessionWrapper), web.directory.make_handler_for /
 DirectoryNodeHandler (getChild, _got_child, render_GET/PUT/POST/DELETE, every _POST_* it dispatches to) / DirectoryAsHTML /
 _directory_json_metadata / ManifestResults / ManifestStreamer / DeepStatsResults / UnknownNodeHandler / UnknownJSONMetadata,
 web.filenode.FileNodeHandler / PlaceHolderNodeHandler / ReplaceMeMixin / _file_json_metadata / _file_uri / _file_read_only_uri,
@@ -13,7 +14,9 @@ The network below the nodes is the in-memory grid of harness/_webfix.py.
 
 Inputs are requests chosen by symbolic selectors (which capability is used, which path, which method / t= / arguments, which child
 kind, replace= / format= values, whether the gateway's node cache is warm): path-per-input, CrossHair explores every selector
-combination within the bounds and the solver decides the selector arithmetic.
+combination within the bounds and the solver decides the selector arithmetic.  The selectors are pinned to plain integers by
+comparison forks; the request itself then runs with opcode tracing switched off (W.untraced): one request through the whole
+web stack costs 5-10 s under tracing and a few ms without, and on concrete inputs both compute the same thing.
 """
 import base64
 import json as _json
@@ -30,16 +33,45 @@ from allmydata.web import root as wroot, directory as wdir, filenode as wfile, i
 B = hlib.bounds()
 W.unproxy_http()
 NOTES = list(W.NOTES)
-hlib.encoded(wroot.URIHandler.getChild, wdir.make_handler_for, wdir.DirectoryNodeHandler, wdir.DirectoryAsHTML, wdir._directory_json_metadata,
-             wdir._directory_uri, wdir._directory_readonly_uri, wdir.ManifestResults, wdir.ManifestStreamer, wdir.DeepStatsResults, wdir.DeepSizeResults,
-             wdir.UnknownNodeHandler, wdir.UnknownJSONMetadata, wdir.RenameForm, wdir._cap_to_link,
-             wfile.FileNodeHandler, wfile.PlaceHolderNodeHandler, wfile.ReplaceMeMixin, wfile._file_json_metadata, wfile._file_uri, wfile._file_read_only_uri,
-             winfo.MoreInfo, winfo.MoreInfoElement,
-             wcommon.render_exception, wcommon.exception_to_child, wcommon._finish, wcommon._renderHTTP_exception, wcommon.humanize_exception,
-             wcommon.get_arg, wcommon.parse_replace_arg, wcommon.boolean_of_arg, wcommon.get_format, wcommon.get_mutable_type,
-             wcommon.should_create_intermediate_directories, wcommon.convert_children_json, wcommon.handle_when_done, wcommon.get_filenode_metadata,
-             D.DirectoryNode.set_node, D.DirectoryNode.set_children, D.DirectoryNode.set_uri, D.DirectoryNode.add_file, D.DirectoryNode.delete,
-             D.DirectoryNode.create_subdirectory, D.DirectoryNode.move_child_to, D.DirectoryNode.get_write_uri, D.DirectoryNode.is_readonly)
+def _record_encoded():
+    """record (with a source hash) what is executed; looked up by name so that a renamed helper does not kill the harness"""
+    import types
+    from allmydata.web import private as wprivate
+    from allmydata.mutable import filenode as mfn
+    from allmydata import nodemaker as nmk
+    wanted = (
+        (wroot, ("URIHandler", "FileHandler", "Root.__init__", "Root.getChild")),
+        (wdir, ("make_handler_for", "DirectoryNodeHandler", "DirectoryAsHTML", "_directory_json_metadata", "_directory_uri", "_directory_readonly_uri",
+                "ManifestResults", "ManifestElement", "ManifestStreamer", "DeepStatsResults", "DeepSizeResults", "UnknownNodeHandler", "UnknownJSONMetadata",
+                "RenameForm", "_cap_to_link")),
+        (wfile, ("FileNodeHandler", "FileNodeDownloadHandler", "PlaceHolderNodeHandler", "ReplaceMeMixin", "_file_json_metadata", "_file_uri", "_file_read_only_uri")),
+        (winfo, ("MoreInfo", "MoreInfoElement")),
+        (wcommon, ("render_exception", "exception_to_child", "_finish", "_getChild_failed", "_renderHTTP_exception", "humanize_exception", "get_arg",
+                   "parse_replace_arg", "boolean_of_arg", "get_format", "get_mutable_type", "parse_offset_arg", "should_create_intermediate_directories",
+                   "convert_children_json", "handle_when_done", "get_filenode_metadata", "text_plain")),
+        (wprivate, ("Token", "TokenChecker", "TokenCredentialFactory", "PrivateRealm", "create_private_tree")),
+        (D, ("DirectoryNode", "Adder", "Deleter")),
+        (mfn, ("MutableFileNode", "MutableFileVersion")),
+        (nmk, ("NodeMaker.create_from_cap", "NodeMaker._create_from_single_cap")),
+    )
+    for (mod, names) in wanted:
+        for name in names:
+            obj = mod
+            for part in name.split("."):
+                obj = getattr(obj, part, None)
+                if obj is None:
+                    break
+            if obj is None:
+                continue
+            while hasattr(obj, "__wrapped__"):
+                obj = obj.__wrapped__
+            try:
+                hlib.encoded(obj)
+            except hlib.HarnessError:
+                pass
+
+
+_record_encoded()
 
 
 # ---------------------------------------------------------------------------------------------------------
@@ -166,7 +198,7 @@ def _fresh(world):
     W.GRID[0] = g
     del W.QUEUE[:]
     client = W.Client()
-    return g, client, W.make_site(wroot.URIHandler(client))
+    return g, client, W.make_site(wroot.Root(client))
 
 
 def _hold(client, capstr, depth):
@@ -227,7 +259,7 @@ GET_OPS = (b"json", b"info", b"uri", b"readonly-uri", b"", b"rename-form")
 
 def _leak_request(capstr, path, opi):
     """GET ?t=<op> (ops 0..5) or one of the manifest / deep-stats POSTs (6..9) on cap/path"""
-    segs = [capstr] + [p.encode("utf-8") for p in path]
+    segs = [b"uri", capstr] + [p.encode("utf-8") for p in path]
     is_dir = (len(path) == 0) or (len(path) == 1 and path[0] in _DIR_LABELS)
     if opi < len(GET_OPS):
         t = GET_OPS[opi]
@@ -315,7 +347,7 @@ def _run_ro_listing2(access, md, target, opi, warm, held):
     if warm:
         # the gateway first served the holder of the write cap (same process, same node cache)
         rwcap = ROOT_RW_OF[access]
-        r0 = W.serve(site, W.make_request(b"GET", [rwcap], {b"t": [b"json"]}))
+        r0 = W.serve(site, W.make_request(b"GET", [b"uri", rwcap], {b"t": [b"json"]}))
         if r0.code != 200 or _find_secret(r0.response_bytes()) is None:
             return "harness: the write-cap holder's listing does not show write caps"
         W.serve(site, _leak_request(rwcap, path, opi))
@@ -362,7 +394,7 @@ def _run_rw_listing(access, md, target):
     (capstr, writeable, labels) = ROOT_CAPS[access]
     path = _target_path(labels, target)
     g, client, site = _fresh(LEAK_WORLDS[md])
-    req = W.serve(site, W.make_request(b"GET", [capstr] + [p.encode("utf-8") for p in path], {b"t": [b"json"]}))
+    req = W.serve(site, W.make_request(b"GET", [b"uri", capstr] + [p.encode("utf-8") for p in path], {b"t": [b"json"]}))
     if req.code != 200:
         return "t=json through the write cap failed: %r" % (req.code,)
     doc = _json.loads(req.body_bytes().decode("utf-8"))
@@ -393,7 +425,7 @@ def _run_rw_listing(access, md, target):
             for v in x:
                 walk(v)
     walk(doc)
-    r2 = W.serve(site, W.make_request(b"GET", [capstr] + [p.encode("utf-8") for p in path], {b"t": [b"readonly-uri"]}))
+    r2 = W.serve(site, W.make_request(b"GET", [b"uri", capstr] + [p.encode("utf-8") for p in path], {b"t": [b"readonly-uri"]}))
     if r2.code == 200:
         slots.append(r2.body_bytes())
     elif not (target > 0 and F.CAPS[path[0]][2] == "unknown"):
@@ -525,13 +557,16 @@ OPS = (
     ("PUT leafdir/new", b"PUT", [b"leafdir", b"new"], {}, _U, None),
     ("POST leafdir t=delete name=x", b"POST", [b"leafdir"], {b"t": b"delete", b"name": b"x"}, b"", None),
     ("PUT leafdir t=uri", b"PUT", [b"leafdir"], {b"t": b"uri"}, LIT_CAP, None),
+    ("POST t=' unlink ' name=leaf", b"POST", [], {b"t": b" unlink ", b"name": b"leaf"}, b"", None),
+    ("POST uri name=new uri=<write cap>", b"POST", [], {b"t": b"uri", b"name": b"new", b"uri": b"@fw_rw"}, b"", None),
+    ("POST mkdir name=new format=mdmf", b"POST", [], {b"t": b"mkdir", b"name": b"new", b"format": b"mdmf"}, b"", None),
 )
 REPLACE = (None, b"true", b"false", b"only-files", b"TRUE", b"bogus")
 
 
-def _mod_request(caps, shape, opi, ri, when_done):
+def _mod_request(caps, shape, opi, ri, when_done, route=b"uri"):
     (label, method, below, args, body, upload) = OPS[opi]
-    segs = _prefix(caps, shape) + list(below)
+    segs = [route] + _prefix(caps, shape) + list(below)
     q = {}
     for (k, v) in args.items():
         if v[:1] == b"@":
@@ -562,7 +597,7 @@ def _run_ro_modify2(mdmf, shape, opi, ri, when_done, warm, want_objects, held):
     if warm:
         # the gateway has just served the write-cap holder on the same tree (node cache holds writeable nodes)
         for p in ([caps["root_rw"]], [caps["root_rw"], b"sub"], [caps["root_rw"], b"sub", b"leafdir"]):
-            r0 = W.serve(site, W.make_request(b"GET", p, {b"t": [b"json"]}))
+            r0 = W.serve(site, W.make_request(b"GET", [b"uri"] + p, {b"t": [b"json"]}))
             if r0.code != 200:
                 return "harness: warm-up listing failed"
         held.extend(_hold(client, caps["root_rw"], 3))
@@ -570,7 +605,8 @@ def _run_ro_modify2(mdmf, shape, opi, ri, when_done, warm, want_objects, held):
         if g.log:
             return "harness: warm-up wrote to the grid"
     before = g.snapshot()
-    req = W.serve(site, _mod_request(caps, shape, opi, ri, when_done))
+    # both names of the same resource are used: /uri/... on the SDMF tree, its alias /cap/... on the MDMF tree
+    req = W.serve(site, _mod_request(caps, shape, opi, ri, when_done, route=(b"cap" if mdmf else b"uri")))
     label = OPS[opi][0]
     if req.finish_count != 1:
         return "%s: response not finished exactly once (finish_count=%d, code=%r)" % (label, req.finish_count, req.code)
@@ -610,7 +646,7 @@ def _run_rw_modify(mdmf, opi, when_done):
     (mut, imm, caps) = MOD_WORLDS[1 if mdmf else 0]
     g, client, site = _fresh((mut, imm))
     before = g.snapshot()
-    req = W.serve(site, _mod_request(caps, CONTROL_SHAPE, opi, 0, when_done))
+    req = W.serve(site, _mod_request(caps, CONTROL_SHAPE, opi, 0, when_done, route=(b"cap" if mdmf else b"uri")))
     label = OPS[opi][0]
     if req.finish_count != 1:
         return "%s: response not finished exactly once" % label
@@ -659,21 +695,23 @@ def h_ro_new_objects(mdmf: bool, shape: int, opi: int, ri: int, when_done: bool,
 
 def _file_prefix(caps, shape):
     table = (
-        [caps["fro_ro"]],                   # 0: read-only cap of the file
-        [caps["root_rw"], b"fro"],          # 1: read-only link to it in a writeable directory
-        [caps["root_ro"], b"fw"],           # 2: a writeable file reached through a read-only directory
-        [caps["root_ro"], b"fro"],          # 3
-        [caps["fro_v"]],                    # 4: verify cap
-        [IMM2.to_string()],                 # 5: an immutable file by its cap
-        [caps["root_rw"], b"immsub", b"imm"],   # 6: an immutable file inside an immutable directory
-        [LIT_CAP],                          # 7: a literal file
-        [caps["root_rw"], b"fw"],           # 8: CONTROL - writeable file in a writeable directory
+        [b"uri", caps["fro_ro"]],                   # 0: read-only cap of the file
+        [b"uri", caps["root_rw"], b"fro"],          # 1: read-only link to it in a writeable directory
+        [b"uri", caps["root_ro"], b"fw"],           # 2: a writeable file reached through a read-only directory
+        [b"cap", caps["root_ro"], b"fro"],          # 3
+        [b"uri", caps["fro_v"]],                    # 4: verify cap
+        [b"uri", IMM2.to_string()],                 # 5: an immutable file by its cap
+        [b"cap", caps["root_rw"], b"immsub", b"imm"],   # 6: an immutable file inside an immutable directory
+        [b"uri", LIT_CAP],                          # 7: a literal file
+        [b"file", caps["fro_ro"], b"name.txt"],     # 8: the download-only routes /file/<cap>/<name> ...
+        [b"named", caps["fro_ro"], b"name.txt"],    # 9: ... and /named/<cap>/<name>
+        [b"uri", caps["root_rw"], b"fw"],           # 10: CONTROL - writeable file in a writeable directory
     )
     return list(table[shape])
 
 
-N_FILE_SHAPES = 8
-FILE_CONTROL = 8
+N_FILE_SHAPES = 10
+FILE_CONTROL = 10
 FILE_OPS = (
     # (label, method, args, body, upload, touches the parent link only)
     ("PUT", b"PUT", {}, _U, None, False),
@@ -705,7 +743,7 @@ def _run_ro_file2(mdmf, shape, opi, ri, warm, held):
     fields = W.Fields({"file": W.Field(upload, filename="upload.bin")}) if upload is not None else None
     if warm:
         for p in ([caps["root_rw"]], [caps["root_rw"], b"fw"], [caps["fw_rw"]]):
-            W.serve(site, W.make_request(b"GET", p, {b"t": [b"json"]}))
+            W.serve(site, W.make_request(b"GET", [b"uri"] + p, {b"t": [b"json"]}))
         held.extend(_hold(client, caps["root_rw"], 2))
         held.extend(_hold(client, caps["fw_rw"], 0))
         if g.log:
@@ -739,7 +777,7 @@ def _file_case_ok(shape, opi):
 def h_ro_file(mdmf: bool, shape: int, opi: int, ri: int, warm: bool) -> bool:
     """
     pre: 0 <= shape < N_FILE_SHAPES and 0 <= opi < len(FILE_OPS) and 0 <= ri < len(REPLACE)
-    pre: _in("shape", shape) and _in("ri", ri) and _in("warm", int(warm))
+    pre: _in("shape", shape) and _in("ri", ri) and _in("warm", int(warm)) and _in("mdmf", int(mdmf))
     pre: _file_case_ok(shape, opi)
     post: _ == True
     """
@@ -806,7 +844,7 @@ def _run_relink_into(mdmf, src, dest, ri):
     (mut, imm, caps) = MOD_WORLDS[1 if mdmf else 0]
     g, client, site = _fresh((mut, imm))
     # source directory is writeable in every case: the root (child "fw") or D through its write cap (child "leaf")
-    (segs, name) = (([caps["root_rw"]], b"fw"), ([caps["root_rw"], b"sub"], b"leaf"), ([caps["d1_rw"]], b"leafdir"))[src]
+    (segs, name) = (([b"uri", caps["root_rw"]], b"fw"), ([b"uri", caps["root_rw"], b"sub"], b"leaf"), ([b"cap", caps["d1_rw"]], b"leafdir"))[src]
     q = {b"t": [b"relink"], b"from_name": [name], b"to_name": [b"moved-in"], b"to_dir": [_dests(caps)[dest]]}
     if REPLACE[ri] is not None:
         q[b"replace"] = [REPLACE[ri]]
@@ -836,3 +874,58 @@ def h_relink_into(mdmf: bool, src: int, dest: int, ri: int) -> bool:
     post: _ == True
     """
     return W.untraced(_run_relink_into, bool(mdmf), _pin(src, 0, 2), _pin(dest, 0, N_DESTS), _pin(ri, 0, len(REPLACE) - 1))
+
+
+# ---- the private area (/private/...): reachable only with the node's API auth token -----------------------------------
+
+_SCHEMES = (b"tahoe-lafs", b"Tahoe-LAFS", b"TAHOE-LAFS", b"Basic", b"tahoe-lafs2", b"")
+
+
+def _run_private(kind, p, scheme, method):
+    g, client, site = _fresh(MOD_WORLDS[0][:2])
+    token = client.AUTH_TOKEN
+    if kind == 0:
+        sent = token                                        # the token itself
+    elif kind == 1:
+        sent = token[:p] + bytes([token[p] ^ 1]) + token[p + 1:]     # one byte differs at position p
+    elif kind == 2:
+        sent = token[:p]                                    # proper prefix (p < len)
+    elif kind == 3:
+        sent = token + token[p:p + 1]                       # one byte longer
+    elif kind == 4:
+        sent = token + b" "
+    elif kind == 5:
+        sent = b" " + token                                 # two blanks after the scheme
+    elif kind == 6:
+        sent = token.swapcase()
+    elif kind == 7:
+        sent = token + b" " + token                       # (a line break cannot arrive inside a header value)
+    else:
+        sent = None                                         # no Authorization header at all
+    headers = {}
+    if sent is not None:
+        headers[b"authorization"] = _SCHEMES[scheme] + b" " + sent
+    req = W.make_request((b"GET", b"POST", b"PUT", b"DELETE")[method], [b"private", b"logs"], {}, headers=headers)
+    W.serve(site, req)
+    if req.finish_count != 1:
+        return "harness: /private request not finished exactly once"
+    denied = (req.code == 401)
+    # independent statement: the private tree is served iff the header is '<scheme, any case> <exactly the token>'
+    should = (sent is not None and sent == token and _SCHEMES[scheme].lower() == b"tahoe-lafs")
+    if should and denied:
+        return "the correct token was refused"
+    if not should and not denied:
+        return "the private area was served (status %r) for Authorization: %r" % (req.code, headers.get(b"authorization"))
+    if should and req.code not in (200, 404, 405, 501):
+        return "harness: unexpected status %r from the private tree" % (req.code,)
+    return True
+
+
+def h_private_token(kind: int, p: int, scheme: int, method: int) -> bool:
+    """
+    pre: 0 <= kind <= 8 and 0 <= p < len(W.Client.AUTH_TOKEN) and 0 <= scheme < len(_SCHEMES) and 0 <= method <= 3
+    pre: kind in (1, 2, 3) or p == 0
+    pre: _in("p", p)
+    post: _ == True
+    """
+    return W.untraced(_run_private, _pin(kind, 0, 8), _pin(p, 0, len(W.Client.AUTH_TOKEN) - 1), _pin(scheme, 0, len(_SCHEMES) - 1), _pin(method, 0, 3))
